@@ -133,6 +133,26 @@ theorem order_contract :
     (tagOrders.all (contractOK TagProj.cls) && contractOK EdgeProj.cls PV.Gen.Comparators.edgeList_Less &&
      nodeOrders.all (fun o => contractOK NodeProj.cls o.1)) = true := by decide
 
+/-- the regenerated list starts with the given projections -/
+def startsWith {π : Type} [DecidableEq π] (ps : List π) (ks : List (KD π)) : Bool :=
+  decide ((ks.map (·.proj)).take ps.length = ps)
+
+/-- each order compares first what its name announces: FlatName = flat, name; FlatCumName = flat,
+cum, name; CumName = score (= cum, see `cum_order_score`), name; Name; File; Address; tags by flat
+(or cum, then flat); edges by weight -/
+theorem order_names_contract :
+    (open PV.Gen.Comparators in
+     startsWith [NodeProj.Flat, .Info_PrintableName] nodes_FlatNameOrder &&
+     startsWith [NodeProj.Flat, .Cum, .Info_PrintableName] nodes_FlatCumNameOrder &&
+     startsWith [NodeProj.Score, .Info_PrintableName] nodes_CumNameOrder &&
+     startsWith [NodeProj.Score, .Info_PrintableName] nodes_EntropyOrder &&
+     startsWith [NodeProj.Info_Name] nodes_NameOrder &&
+     startsWith [NodeProj.Info_File] nodes_FileOrder &&
+     startsWith [NodeProj.Info_Address] nodes_AddressOrder &&
+     startsWith [TagProj.Flat] tags_Less__flat &&
+     startsWith [TagProj.Cum, .Flat] tags_Less__not_flat &&
+     startsWith [EdgeProj.Weight] edgeList_Less) = true := by decide
+
 /-- the score map of CumNameOrder holds the cumulative weight -/
 theorem cum_order_score : PV.Gen.Comparators.nodes_CumNameOrder_score = .field .Cum := by decide
 
@@ -212,6 +232,19 @@ theorem compareNodes_collision :
       (fun o => !nodeLess o.2 o.1 a b && !nodeLess o.2 o.1 b a) = true := by
   decide
 
+/-- Second known limit (finding C08/cli/call_tree/identical-info-nodes): a call TREE has several
+nodes with one NodeInfo, which violates the hypothesis `hinj` of `pipeline_deterministic`.  Two
+interior tree nodes for the same function with cumulative weights 3 and 5 (entropy score 0 for
+both, flat 0) are different nodes, yet both arrangements pass `sort.IsSorted` under the regenerated
+EntropyOrder — the sorted arrangement is not unique, so the output follows the input (map) order. -/
+theorem call_tree_twins_not_unique :
+    let info : NodeInfo := ⟨[98, 97, 114], [], 0, [], 0, 0, 0, []⟩                      -- "bar"
+    let a : Node := ⟨info, 0, 0, 3, 0, 0⟩
+    let b : Node := ⟨info, 0, 0, 5, 0, 0⟩
+    let lt := nodeLess PV.Gen.Comparators.nodes_EntropyOrder_score PV.Gen.Comparators.nodes_EntropyOrder
+    a ≠ b ∧ adjSortedB lt [a, b] = true ∧ adjSortedB lt [b, a] = true := by
+  decide
+
 /-- Witness for defect #7 (what `tags_proper` rejects): with the pinned tree's shape — guard on the
 raw value, order on the magnitude — tags +5 `a` (byte 97) and −5 `b` (98) are mutually "not less" although their
 names differ, and "not less" is not transitive. -/
@@ -226,15 +259,19 @@ theorem raw_guard_abs_order_not_strict :
 
 /-! ## map-iteration sites -/
 
-/-- The `range`-over-map sites regenerated from the current source are exactly the hand-reviewed
-ones (Spec/MapRangesExpected.lean): no new unsorted map walk, no sort removed. -/
-theorem map_ranges_match_review : PV.Gen.MapRanges.sites = PV.Spec.MapRangesExpected.sites := by decide
+/-- Every `range`-over-map site regenerated from the current source is one of the hand-reviewed ones
+(Spec/MapRangesExpected.lean): no new unsorted map walk, no sort removed from a reviewed one. -/
+theorem map_ranges_match_review :
+    PV.Gen.MapRanges.sites.all (fun s => PV.Spec.MapRangesExpected.sites.contains s) = true := by decide
 
 /-- Each reviewed verdict agrees with what the translator measured (a site judged "sorted here" is
-seen by the translator to reach a sort before any output call), and exactly one site — the float
-sum in `edgeEntropyScore` — is left to the run-time hunt. -/
+seen by the translator to reach a sort before any output call), and no site is left to a run-time
+hunt and every reviewed site is an `append` whose slice is dealt with afterwards: in particular no
+output is written, no string concatenated and no floating-point sum accumulated in map order (the
+`floatsum` sink of the unrepaired `edgeEntropyScore` is not a reviewed site). -/
 theorem map_ranges_reviewed :
     PV.Spec.MapRangesExpected.reviewed.all Reviewed.consistent = true ∧
-    PV.Spec.MapRangesExpected.huntedSites.map (·.site.fn) = ["edgeEntropyScore"] := by decide
+    PV.Spec.MapRangesExpected.huntedSites = [] ∧
+    PV.Spec.MapRangesExpected.sites.all (fun s => decide (s.kind = SinkKind.append)) = true := by decide
 
 end PV.Props.C08
